@@ -380,6 +380,24 @@ Theorem C07_vending_factory_create_ok : forall self p now funds r ms,
   g_min_price p <= r_price r /\ r_price_denom r = g_min_denom p.
 Proof. exact factory_create_vending_price. Qed.
 
+(* ---- creation: whatever the amounts - a minimum of 0 (free-mint factory) and a price of 0
+   included - an accepted creation is priced in the denom of the minimum in force; stated
+   for the two probe clauses (CreatePrice.v) and for the full factory models ---- *)
+Theorem C07_creation_denom_is_minimum_denom :
+  (forall fp price d, create_price_ok fp price d = true -> d = fp_min_denom fp) /\
+  (forall m md price d capped, oe_create_price_ok m md price d capped = true -> d = md) /\
+  (forall self p now funds r ms, factory_create FVending self p now funds r = Ok ms -> r_price_denom r = g_min_denom p) /\
+  (forall self p now funds r ms, factory_create FOpen self p now funds r = Ok ms -> r_price_denom r = g_min_denom p).
+Proof. exact creation_denom_is_minimum_denom. Qed.
+
+Example C07_creation_zero_minimum :
+  let fp0 := mkFP 0 0 1000 0 0 10000 500 50 604800 in
+  create_price_ok fp0 0 0 = true /\ create_price_ok fp0 100 0 = true /\
+  create_price_ok fp0 0 1 = false /\ create_price_ok fp0 100 1 = false /\
+  oe_create_price_ok 0 1 0 1 true = true /\ oe_create_price_ok 0 1 0 0 true = false /\
+  oe_create_price_ok 0 1 5 0 true = false /\ oe_create_price_ok 0 0 0 0 false = false.
+Proof. vm_compute. repeat split; reflexivity. Qed.
+
 (* ---- UpdateMintPrice: only the admin, only before the end time (if any), never below
    the minimum in force, strictly lower once the stored start time has been reached,
    never zero without a token cap; changes the price amount and nothing else ---- *)
@@ -738,3 +756,4 @@ Print Assumptions C07_migrate_keeps_prices.
 Print Assumptions C07_migrate_from_390_or_later_changes_nothing.
 Print Assumptions C07_migrate_then_discount_at_once.
 Print Assumptions C07_oe_migrate_changes_nothing.
+Print Assumptions C07_creation_denom_is_minimum_denom.
